@@ -76,6 +76,13 @@ def stepRadius (d : RD) (toks : List String) (impl : String) : RD × Res :=
     let out : Res := { model := s!"cache={cs}", monitor := if impl != s!"cache={cs}" && !entered then ["radius_is_last_report"] else [],
                        tags := ["raddenr", if entered then "entered" else "known"] }
     ({ d with cache := cache' }, out)
+  | some "rpingfail" =>
+    -- a liveness ping of ours that the peer did not answer: no radius was reported, the cache entry stays as it is
+    let cs := match d.cache with | some h => h | none => "none"
+    let it := words impl
+    let out : Res := { model := s!"err cache={cs}", monitor := if kv it "cache" != cs then ["radius_is_last_report"] else [],
+                       tags := ["rpingfail"] }
+    (d, out)
   | some "rcontentenrs" =>
     -- a FINDCONTENT answer of the closer-nodes kind from this peer: no radius was reported, the cache entry stays as it is
     let cs := match d.cache with | some h => h | none => "none"
